@@ -57,23 +57,31 @@ CHECKS = {
     text='complete for the inclusion work list (all finite file systems: '
          'termination within the stated fuel, each file once, exactly the '
          'files reachable through non-skipped files, command-line files '
-         'first); the extraction itself (which arguments reach the output) is '
-         'decided by the differential run and the generator oracle only; one '
-         'open known finding (K4)',
-    ref='6/C18',
+         'first); for the extraction: parse() with an extraction list returns '
+         'the glued extracted sequences and nothing of the main flow, '
+         'init_extractions empties the output of every macro and sets the '
+         'template of exactly the listed ones (theorems); that each use in '
+         'kept text appends one sequence is decided by the differential run '
+         'and the generator oracle; one open known finding (K4)',
+    ref='6/C18, 11.2',
     technique='Coq proof (invariant of the work list, potential function for '
-              'termination) + real shell on exhaustive small inclusion graphs '
-              '+ extraction oracle'),
+              'termination; extraction assembly) + real shell on exhaustive '
+              'small inclusion graphs + extraction oracle'),
  'C16': dict(
-    text='partial: the escaping layer (protect_html is a character map, its '
-         'output holds no markup characters outside the line-break mark, '
-         'decoding gives the source back) and the line splitting / highlight '
-         'wrapping are theorems; region grouping, overlap list and line '
-         'numbers are part of the byte-exact executable model and are decided '
-         'by the correspondence run and the HTML-parsing oracle',
-    ref='6/C16',
-    technique='Coq proof (escaping, splitting) + byte-exact model of '
-              'genhtml.py run against the implementation + HTML parser oracle'),
+    text='partial: theorems for the escaping layer (protect_html is a '
+         'character map, its output holds no markup characters outside the '
+         'line-break mark, decoding gives the source back), line splitting / '
+         'highlight wrapping, and one region of the report: the body is a '
+         'gap-free, overlap-free tiling of the source stretch, every match is '
+         'highlighted exactly once (in place or in the overlap list), a '
+         'highlight is the escaped source span of its match (never empty). '
+         'Grouping into regions, context lines and line numbers are part of '
+         'the byte-exact executable model and are decided by the '
+         'correspondence run and the HTML-parsing oracle',
+    ref='6/C16, 11.2',
+    technique='Coq proof (escaping, splitting, region tiling) + byte-exact '
+              'model of genhtml.py run against the implementation + HTML '
+              'parser oracle'),
 
  'C01': dict(
     text='partial. Theorems for every input: equal length of text and '
